@@ -1,11 +1,17 @@
 (* C38 -- errno clause, positive form: used when the tree restores errno in every branch (the check selects this file when
-   the witness of finding F11 is NOT observed on the generated code; the model variant `Fixed` is then the one compared
-   with the generated code on every case). *)
+   the witness of finding F11 is NOT observed on the generated code; the model variant compared with the generated code on
+   every case is then `Fixed` or `Documented`, see Properties_C38_ret*.v). *)
 From Coq Require Import Reals List Bool ZArith.
 From C38 Require Import C38Model C38Spec C38Proofs.
 Local Open Scope Z_scope.
 
-Theorem C38_errno_always_restored : forall d args nargs p e0 body,
-  errno_after (generic R Rltb Fixed d args nargs p e0 body) = e0.
-Proof. exact errno_fixed. Qed.
+Theorem C38_errno_always_restored : forall vr d args nargs p e0 body, vr <> AsFound ->
+  errno_after (generic R Rltb vr d args nargs p e0 body) = e0.
+Proof. exact errno_repaired. Qed.
 Print Assumptions C38_errno_always_restored.
+
+(* also with parameters (status -6 included), static parameters, ...: every variant of the emission that keeps the runtime checks *)
+Theorem C38_errno_always_restored_with_options : forall vr o pf d args nargs p e0 body, vr <> AsFound -> o_nochecks o = false ->
+  errno_after (generic_opt R Rltb vr o pf d args nargs p e0 body) = e0.
+Proof. exact opt_errno. Qed.
+Print Assumptions C38_errno_always_restored_with_options.
